@@ -493,6 +493,9 @@ def run(ctx, rep):
     from rules.C03 import search_rules
     count_rule(facts, rep, rule="C01-COUNT", only=r"ZipWriter<W>>::write$|MaybeEncrypted|Crc32Reader")
     search_rules(ctx, facts, rep)
+    # archives with more than 65535 entries / beyond 4 GiB are in C01's quantifier: the end records that make them readable
+    from rules.shared_zip64 import eocd_rules
+    eocd_rules(ctx, facts, rep, rule="C08-EOCD")
     rep.floor("C01-CODEC", 100, "5 records x writer+reader, one instance per field")
     rep.assume("compression libraries reproduce their input (flate2, bzip2, zstd)")
     rep.assume("the sink honours Seek")
